@@ -874,6 +874,98 @@ fn schnorr_n<const N: usize>(rng: &mut StdRng, thorough: bool, out: &mut Vec<Val
     }
 }
 
+/// Verification HISTORIES: one honest proof of each kind verified alternately under the genuine parameters and under
+/// parameters with ONE field replaced (g1 / Y_i / g2 / X~ / Y~_i of a key, h / g_i of a Pedersen parameter set) -
+/// every verdict must be the conjunction of the relations evaluated independently under the parameters actually passed
+/// (a verifier is a function of its arguments, whatever was verified before).
+fn verification_histories<const N: usize>(rng: &mut StdRng, out: &mut Vec<Value>) {
+    let kp = KeyPair::<N>::new(rng);
+    let pk = kp.public_key().clone();
+    let pkt = Tree::of(&pk);
+    let pkv = Pk::from_tree(&pkt, "").unwrap();
+    let shift = |b: &[u8]| -> Vec<u8> {
+        if b.len() == 48 { G1Affine::from(G1Projective::from(indep::g1(b).unwrap()) + G1Projective::generator()).to_compressed().to_vec() }
+        else { G2Affine::from(G2Projective::from(indep::g2(b).unwrap()) + G2Projective::generator()).to_compressed().to_vec() }
+    };
+    let mut kvars: Vec<(String, PublicKey<N>, Pk)> = vec![];
+    for l in pkt.leaves.clone() {
+        if l.kind != "bytes" { continue; }
+        let idx: Option<usize> = l.path.rsplit('.').next().and_then(|x| x.parse().ok());
+        if let Some(i) = idx { if i >= 2 && i + 1 != N { continue; } }
+        let mut b = pkt.bytes.clone();
+        let nb = shift(&pkt.bytes[l.off..l.off + l.len]);
+        b[l.off..l.off + l.len].copy_from_slice(&nb);
+        if let Ok(v) = bincode::deserialize::<PublicKey<N>>(&b) {
+            let vv = Pk::from_tree(&Tree { bytes: b, leaves: pkt.leaves.clone() }, "").unwrap();
+            kvars.push((l.path.clone(), v, vv));
+        }
+    }
+    let mut mv = [Scalar::zero(); N];
+    for i in 0..N { mv[i] = Scalar::random(&mut *rng) ; }
+    // signature proof and signature request proof under key variants
+    {
+        let sig = Message::<N>::new(mv).sign(rng, &kp);
+        let b = SignatureProofBuilder::<N>::generate_proof_commitments(rng, Message::<N>::new(mv), sig, &[None; N], &pk);
+        let ch = ChallengeBuilder::new().with(&b).finish();
+        let p = b.generate_proof_response(ch);
+        let view = sp_root(&Tree::of(&p)).unwrap();
+        let c = ch.to_scalar();
+        let ev = |name: &str, case: &str, k: &PublicKey<N>, kv: &Pk, out: &mut Vec<Value>| {
+            let (a, b_, c_) = view.relations(kv, &c);
+            out.push(json!({"ev": "proof", "kind": "sp", "N": N, "case": case, "history": name, "decoded": true, "verdict": p.verify_knowledge_of_signature(k, ch),
+                            "atoms": {"sigma1_not_identity": a, "schnorr": b_, "pairing": c_}}));
+        };
+        ev("genuine", "history_genuine", &pk, &pkv, out);
+        for (f, k, kv) in kvars.iter() {
+            ev(f, "history_variant", k, kv, out);
+            ev(f, "history_genuine", &pk, &pkv, out);
+        }
+        let b = SignatureRequestProofBuilder::<N>::generate_proof_commitments(rng, Message::<N>::new(mv), &[None; N], &pk);
+        let ch = ChallengeBuilder::new().with(&b).finish();
+        let p = b.generate_proof_response(ch);
+        let view = Cp::from_tree(&Tree::of(&p), "commitment_proof").unwrap();
+        let c = ch.to_scalar();
+        let ev2 = |name: &str, case: &str, k: &PublicKey<N>, kv: &Pk, out: &mut Vec<Value>| {
+            out.push(json!({"ev": "proof", "kind": "srp", "N": N, "case": case, "history": name, "decoded": true, "verdict": p.verify_knowledge_of_opening(k, ch).is_some(),
+                            "atoms": {"schnorr": view.schnorr_g1(&kv.g1, &kv.y1s, &c)}}));
+        };
+        ev2("genuine", "history_genuine", &pk, &pkv, out);
+        for (f, k, kv) in kvars.iter() {
+            ev2(f, "history_variant", k, kv, out);
+            ev2(f, "history_genuine", &pk, &pkv, out);
+        }
+    }
+    // commitment proofs under Pedersen parameter variants (G1)
+    {
+        let p1 = PedersenParameters::<G1Projective, N>::new(rng);
+        let t1 = Tree::of(&p1);
+        let rd = |t: &Tree, bytes: &[u8]| -> (G1Affine, Vec<G1Affine>) {
+            let tt = Tree { bytes: bytes.to_vec(), leaves: t.leaves.clone() };
+            (indep::g1(tt.bytes_at("h").unwrap()).unwrap(), (0..N).map(|i| indep::g1(tt.bytes_at(&format!("gs.{}", i)).unwrap()).unwrap()).collect())
+        };
+        let (h1, g1s) = rd(&t1, &t1.bytes);
+        let b = CommitmentProofBuilder::<G1Projective, N>::generate_proof_commitments(rng, Message::<N>::new(mv), &[None; N], &p1);
+        let ch = ChallengeBuilder::new().with(&b).with(&p1).finish();
+        let p = b.generate_proof_response(ch);
+        let view = cp_root(&Tree::of(&p)).unwrap();
+        let c = ch.to_scalar();
+        out.push(json!({"ev": "proof", "kind": "cp_g1", "N": N, "case": "history_genuine", "history": "genuine", "decoded": true, "verdict": p.verify_knowledge_of_opening(&p1, ch), "atoms": {"schnorr": view.schnorr_g1(&h1, &g1s, &c)}}));
+        for l in t1.leaves.clone() {
+            if l.kind != "bytes" { continue; }
+            let idx: Option<usize> = l.path.rsplit('.').next().and_then(|x| x.parse().ok());
+            if let Some(i) = idx { if i >= 2 && i + 1 != N { continue; } }
+            let mut bb = t1.bytes.clone();
+            let nb = shift(&t1.bytes[l.off..l.off + l.len]);
+            bb[l.off..l.off + l.len].copy_from_slice(&nb);
+            if let Ok(pv) = bincode::deserialize::<PedersenParameters<G1Projective, N>>(&bb) {
+                let (hv, gv) = rd(&t1, &bb);
+                out.push(json!({"ev": "proof", "kind": "cp_g1", "N": N, "case": "history_variant", "history": l.path, "decoded": true, "verdict": p.verify_knowledge_of_opening(&pv, ch), "atoms": {"schnorr": view.schnorr_g1(&hv, &gv, &c)}}));
+                out.push(json!({"ev": "proof", "kind": "cp_g1", "N": N, "case": "history_genuine", "history": l.path, "decoded": true, "verdict": p.verify_knowledge_of_opening(&p1, ch), "atoms": {"schnorr": view.schnorr_g1(&h1, &g1s, &c)}}));
+            }
+        }
+    }
+}
+
 /// honest proofs whose commitment is the identity element: message all zero and the blinding factor (the builder's
 /// first draw) zero.  They satisfy the Schnorr relation and must verify.
 fn identity_commitment_proofs<const N: usize>(rng: &mut StdRng, out: &mut Vec<Value>) {
@@ -1014,6 +1106,7 @@ pub fn schnorr(seed: u64, thorough: bool) -> Vec<Value> {
                 let mut out = vec![];
                 schnorr_n::<$n>(&mut rng, thorough, &mut out);
                 identity_commitment_proofs::<$n>(&mut rng, &mut out);
+                verification_histories::<$n>(&mut rng, &mut out);
                 out
             })
         };
